@@ -8,6 +8,7 @@ import (
 	"fmt"
 	"net/url"
 	"os"
+	"strconv"
 	"strings"
 
 	"github.com/pentops/j5/lib/j5codec"
@@ -43,6 +44,9 @@ type caseSpec struct {
 	Calls [][]call        `json:"calls"`
 	Sched []int           `json:"schedule"`
 	Why   string          `json:"why"`
+	// Repeat (replay only): the case is run up to that many times in one process (the input of a failure "process dies":
+	// which of the goroutines released together gets where first is not forced by the schedule)
+	Repeat int `json:"repeat,omitempty"`
 }
 
 type callRes struct {
@@ -420,6 +424,9 @@ func replayOne(path string) error {
 		return err
 	}
 	run := runForced(cs, env)
+	for i := 1; i < cs.Repeat; i++ {
+		run = runForced(cs, env)
+	}
 	fmt.Printf("graph %s\ncalls %s\nschedule %s\ntrace    %s\n", cs.U.CoqGraph(), callsTerm(cs.Calls), intsN(run.Sched), intsN(run.Trace))
 	for i, l := range run.Trace {
 		fmt.Printf(" t%d:%s", run.Sched[i], labelName[l])
@@ -433,6 +440,130 @@ func replayOne(path string) error {
 		}
 	}
 	return nil
+}
+
+// forcedCase runs one forced-schedule case on the real code and evaluates the direct oracle on it; what it records goes to
+// res (the run's result, or a per-case partial result when the case runs in a child process). Returns the case's Coq term
+// and its distinctness key.
+func forcedCase(cs *caseSpec, caseNo int, res *vh.Result) (string, string, int, error) {
+	env, err := newEnv(cs.U, cs.K)
+	if err != nil {
+		return "", "", 0, fmt.Errorf("case %d: %w", caseNo, err)
+	}
+	run := runForced(cs, env)
+	input := map[string]any{"universe": cs.U, "depth": cs.K, "mode": cs.Mode, "calls": cs.Calls, "schedule": run.Sched, "why": cs.Why}
+	res.Count("mode:" + cs.Mode)
+	res.Count("shape:" + cs.Why)
+	active := 0
+	for _, th := range cs.Calls {
+		if len(th) > 0 {
+			active++
+		}
+	}
+	key, _ := json.Marshal([]any{cs.U.Nodes, cs.Calls, run.Sched})
+	blocked := false
+	for _, l := range run.Trace {
+		if l == lbWait {
+			blocked = true
+		}
+	}
+	if blocked {
+		res.Count("schedule blocks on the lock")
+	}
+
+	// ---- direct oracle: each completed call returns what it returns alone; no deadlock
+	if run.Stuck {
+		res.Fail(vh.Failure{Case: caseNo, Stream: "forced", Sig: "C10 forced schedule: threads do not finish (deadlock)", Clause: "concurrent calls complete without deadlock",
+			Input: input, Got: fmt.Sprintf("trace %v", run.Trace)})
+	}
+	var obs []string
+	// identity of the schemas handed out: index of first appearance over (thread, call)
+	ptrID := map[j5schema.RootSchema]int{}
+	for t := range cs.Calls {
+		for _, got := range run.Res[t] {
+			if got.Root != nil {
+				if _, ok := ptrID[got.Root]; !ok {
+					ptrID[got.Root] = len(ptrID) + 1
+				}
+			}
+		}
+	}
+	for t, th := range cs.Calls {
+		var os []string
+		for k, c := range th {
+			if k >= len(run.Res[t]) {
+				break
+			}
+			got := run.Res[t][k]
+			want := env.solo(c)
+			same := sameRes(got, want)
+			if !same {
+				sig := "C10 forced schedule: " + kindName[c.Kind] + " result differs from the result of the call run alone"
+				switch {
+				case cs.U.ReachesCollision(c.Node) && strings.Contains(got.Err, "is used by both") && !want.failed():
+					sig = collisionSig
+				case cs.U.ReachesCollision(c.Node) && strings.Contains(got.Err, "is used by both") && strings.Contains(want.Err, "is used by both"):
+					sig = collisionTextSig
+
+				case c.Kind == kSchema && got.Err != "" && !want.failed():
+					sig = "C10 forced schedule: Schema fails (unlinked placeholder of a build in progress is visible) for a type that reflects alone"
+				case c.Kind == kSchema && got.Tree != nil && !got.Tree.Linked():
+					sig = "C10 forced schedule: Schema returns a schema with an unlinked nested reference (To == nil)"
+				case got.Panic != "" && want.Panic == "":
+					sig = "C10 forced schedule: " + kindName[c.Kind] + " panics, unlike the call run alone"
+				case got.Err != "" && !want.failed():
+					sig = "C10 forced schedule: " + kindName[c.Kind] + " fails, succeeds alone"
+				case got.failed() && want.failed():
+					sig = "C10 forced schedule: " + kindName[c.Kind] + " fails with a different error than the call run alone"
+				case !got.failed() && !want.failed() && got.Tree == nil:
+					sig = "C10 forced schedule: " + kindName[c.Kind] + " output differs from the output of the call run alone"
+				}
+				res.Fail(vh.Failure{Case: caseNo, Stream: "forced", Sig: sig, Clause: "each call returns the same result it returns when run alone",
+					Input: input, Got: fmt.Sprintf("thread %d call %d (%s of type %d): %s", t, k, kindName[c.Kind], c.Node, got), Want: want.String()})
+			}
+			res.Count("call:" + kindName[c.Kind])
+			if c.Kind == kSchema {
+				if got.Nil {
+					os = append(os, "ORes RNil 0")
+				} else if strings.HasPrefix(got.Err, "unlinked ref") {
+					os = append(os, "ORes RUnlinked 0")
+				} else if got.failed() {
+					os = append(os, "ORes RErr 0")
+				} else {
+					os = append(os, fmt.Sprintf("ORes (ROk (%s)) %d", got.Tree.Coq(), ptrID[got.Root]))
+				}
+			} else {
+				os = append(os, fmt.Sprintf("OCall %d %d %s", got.class(), want.class(), vh.BoolTerm(same)))
+			}
+		}
+		obs = append(obs, "["+strings.Join(os, ";")+"]")
+	}
+	if cs.U.Rich() {
+		res.Count("universe with exposed oneofs")
+	}
+	if cs.U.Collides() {
+		res.Count("universe with two messages of one schema name")
+	}
+	term := fmt.Sprintf("C10Case %d %s %s %s %s %s %s [%s]", cs.K, cs.U.CoqGraph(), cs.U.CoqExpo(), cs.U.CoqKeys(), callsTerm(cs.Calls), intsN(run.Sched), intsN(run.Trace), strings.Join(obs, ";"))
+	var resStr [][]string
+	for _, th := range run.Res {
+		var ss []string
+		for _, x := range th {
+			ss = append(ss, x.String())
+		}
+		resStr = append(resStr, ss)
+	}
+	var trNames []string
+	for i, l := range run.Trace {
+		if i < 80 {
+			trNames = append(trNames, fmt.Sprintf("t%d:%s", run.Sched[i], labelName[l]))
+		}
+	}
+	res.Cases = append(res.Cases, vh.CaseRec{Case: caseNo, Stream: "forced", Input: input, Impl: map[string]any{"trace": trNames, "results": resStr}})
+	if cs.Mode == "cache" && blocked {
+		res.Sample(map[string]any{"universe": cs.U.CoqGraph(), "calls": cs.Calls, "schedule": run.Sched, "trace": trNames, "results": resStr}, 3)
+	}
+	return term, string(key), active, nil
 }
 
 func runC10(cfg *vh.Config) error {
@@ -449,7 +580,6 @@ func runC10(cfg *vh.Config) error {
 	distinct := vh.Distinct{}
 	r := cfg.R
 	nForced := cfg.Scale(500, 8000)
-	caseNo := 0
 	tagBase := fmt.Sprintf("s%dx", cfg.Seed)
 
 	specs := append(witnessCases(tagBase), collisionCases(tagBase)...)
@@ -481,6 +611,32 @@ func runC10(cfg *vh.Config) error {
 		}
 		calls := genCalls(r, u, mode)
 		sched, swhy := genSched(r, len(calls))
+		if i%12 == 7 {
+			// first uses of types from several DISTINCT new packages overlap on one shared cache / codec: every type in a
+			// package of its own, one thread per type; thread 0 gets some steps into its call (on today's code: into
+			// the build, holding the lock), every other thread then runs up to the lock, and all are let go together
+			u, why = cdesc.GenDistinctPkgs(r, fmt.Sprintf("%sc%d", tagBase, i))
+			calls = nil
+			for t := range u.Nodes {
+				kind := kSchema
+				if mode != "cache" {
+					kind = r.Range(kEncode, kQuery)
+				}
+				th := []call{{Kind: kind, Node: t}}
+				if r.Chance(50) {
+					th = append(th, call{Kind: kind, Node: (t + 1) % len(u.Nodes)})
+				}
+				calls = append(calls, th)
+			}
+			sched = nil
+			for k := r.Range(1, 6); k > 0; k-- {
+				sched = append(sched, 0)
+			}
+			for t := 1; t < len(calls); t++ {
+				sched = append(sched, t, t)
+			}
+			swhy = "one-in-others-arrive"
+		}
 		k := r.Range(2, 4)
 		if u.Collides() && mode != "cache" {
 			// a codec call walks the schema as deep as its message goes (Populate: 2 levels, whose messages are
@@ -490,128 +646,17 @@ func runC10(cfg *vh.Config) error {
 		specs = append(specs, &caseSpec{U: u, K: k, Mode: mode, Calls: calls, Sched: sched, Why: why + "/" + swhy})
 	}
 
-	for _, cs := range specs {
-		env, err := newEnv(cs.U, cs.K)
+	if v := os.Getenv(childEnv); v != "" {
+		// the child of forcedIsolated: same seed, same specs; runs the cases from v on and reports them on stdout
+		start, err := strconv.Atoi(v)
 		if err != nil {
-			return fmt.Errorf("case %d: %w", caseNo, err)
+			return err
 		}
-		run := runForced(cs, env)
-		input := map[string]any{"universe": cs.U, "depth": cs.K, "mode": cs.Mode, "calls": cs.Calls, "schedule": run.Sched, "why": cs.Why}
-		res.Count("mode:" + cs.Mode)
-		res.Count("shape:" + cs.Why)
-		active := 0
-		for _, th := range cs.Calls {
-			if len(th) > 0 {
-				active++
-			}
-		}
-		key, _ := json.Marshal([]any{cs.U.Nodes, cs.Calls, run.Sched})
-		if active >= 2 {
-			distinct.Add(string(key))
-		}
-		blocked := false
-		for _, l := range run.Trace {
-			if l == lbWait {
-				blocked = true
-			}
-		}
-		if blocked {
-			res.Count("schedule blocks on the lock")
-		}
-
-		// ---- direct oracle: each completed call returns what it returns alone; no deadlock
-		if run.Stuck {
-			res.Fail(vh.Failure{Case: caseNo, Stream: "forced", Sig: "C10 forced schedule: threads do not finish (deadlock)", Clause: "concurrent calls complete without deadlock",
-				Input: input, Got: fmt.Sprintf("trace %v", run.Trace)})
-		}
-		var obs []string
-		// identity of the schemas handed out: index of first appearance over (thread, call)
-		ptrID := map[j5schema.RootSchema]int{}
-		for t := range cs.Calls {
-			for _, got := range run.Res[t] {
-				if got.Root != nil {
-					if _, ok := ptrID[got.Root]; !ok {
-						ptrID[got.Root] = len(ptrID) + 1
-					}
-				}
-			}
-		}
-		for t, th := range cs.Calls {
-			var os []string
-			for k, c := range th {
-				if k >= len(run.Res[t]) {
-					break
-				}
-				got := run.Res[t][k]
-				want := env.solo(c)
-				same := sameRes(got, want)
-				if !same {
-					sig := "C10 forced schedule: " + kindName[c.Kind] + " result differs from the result of the call run alone"
-					switch {
-					case cs.U.ReachesCollision(c.Node) && strings.Contains(got.Err, "is used by both") && !want.failed():
-						sig = collisionSig
-					case cs.U.ReachesCollision(c.Node) && strings.Contains(got.Err, "is used by both") && strings.Contains(want.Err, "is used by both"):
-						sig = collisionTextSig
-
-					case c.Kind == kSchema && got.Err != "" && !want.failed():
-						sig = "C10 forced schedule: Schema fails (unlinked placeholder of a build in progress is visible) for a type that reflects alone"
-					case c.Kind == kSchema && got.Tree != nil && !got.Tree.Linked():
-						sig = "C10 forced schedule: Schema returns a schema with an unlinked nested reference (To == nil)"
-					case got.Panic != "" && want.Panic == "":
-						sig = "C10 forced schedule: " + kindName[c.Kind] + " panics, unlike the call run alone"
-					case got.Err != "" && !want.failed():
-						sig = "C10 forced schedule: " + kindName[c.Kind] + " fails, succeeds alone"
-					case got.failed() && want.failed():
-						sig = "C10 forced schedule: " + kindName[c.Kind] + " fails with a different error than the call run alone"
-					case !got.failed() && !want.failed() && got.Tree == nil:
-						sig = "C10 forced schedule: " + kindName[c.Kind] + " output differs from the output of the call run alone"
-					}
-					res.Fail(vh.Failure{Case: caseNo, Stream: "forced", Sig: sig, Clause: "each call returns the same result it returns when run alone",
-						Input: input, Got: fmt.Sprintf("thread %d call %d (%s of type %d): %s", t, k, kindName[c.Kind], c.Node, got), Want: want.String()})
-				}
-				res.Count("call:" + kindName[c.Kind])
-				if c.Kind == kSchema {
-					if got.Nil {
-						os = append(os, "ORes RNil 0")
-					} else if strings.HasPrefix(got.Err, "unlinked ref") {
-						os = append(os, "ORes RUnlinked 0")
-					} else if got.failed() {
-						os = append(os, "ORes RErr 0")
-					} else {
-						os = append(os, fmt.Sprintf("ORes (ROk (%s)) %d", got.Tree.Coq(), ptrID[got.Root]))
-					}
-				} else {
-					os = append(os, fmt.Sprintf("OCall %d %d %s", got.class(), want.class(), vh.BoolTerm(same)))
-				}
-			}
-			obs = append(obs, "["+strings.Join(os, ";")+"]")
-		}
-		if cs.U.Rich() {
-			res.Count("universe with exposed oneofs")
-		}
-		if cs.U.Collides() {
-			res.Count("universe with two messages of one schema name")
-		}
-		cf.Terms = append(cf.Terms, fmt.Sprintf("C10Case %d %s %s %s %s %s %s [%s]", cs.K, cs.U.CoqGraph(), cs.U.CoqExpo(), cs.U.CoqKeys(), callsTerm(cs.Calls), intsN(run.Sched), intsN(run.Trace), strings.Join(obs, ";")))
-		var resStr [][]string
-		for _, th := range run.Res {
-			var ss []string
-			for _, x := range th {
-				ss = append(ss, x.String())
-			}
-			resStr = append(resStr, ss)
-		}
-		var trNames []string
-		for i, l := range run.Trace {
-			if i < 80 {
-				trNames = append(trNames, fmt.Sprintf("t%d:%s", run.Sched[i], labelName[l]))
-			}
-		}
-		res.Cases = append(res.Cases, vh.CaseRec{Case: caseNo, Stream: "forced", Input: input, Impl: map[string]any{"trace": trNames, "results": resStr}})
-		if cs.Mode == "cache" && blocked {
-			res.Sample(map[string]any{"universe": cs.U.CoqGraph(), "calls": cs.Calls, "schedule": run.Sched, "trace": trNames, "results": resStr}, 3)
-		}
-		caseNo++
+		return forcedChild(specs, start, cfg.Seed)
+	}
+	caseNo, err := forcedIsolated(cfg, specs, res, cf, distinct)
+	if err != nil {
+		return err
 	}
 
 	// ---- real goroutines under the race detector
